@@ -20,6 +20,9 @@ def run(tier):
         cmc(v, wd, "cleanup-3c", cconsts(Clients={"c1", "c2", "c3"}, Ops={"AV", "GC", "AS"},
                                          MaxOps=2, MaxVer=4, Draws={0, 255}, WithAges=True),
             timeout=1700)
+    # the cleanup's listings as sequences of page requests
+    cmc(v, wd, "cleanup-2c-paged", cconsts(Ops={"AV", "GC", "AS"}, MaxOps=2, MaxVer=3,
+                                           Draws={0, 255}, WithAges=True, PageSize=1), timeout=1500)
     # anti-vacuity + demonstration: the pinned order (list versions, then read latest)
     pin = cconsts(Ops={"AV", "GC"}, MaxOps=3, Draws={0, 255}, Dev={"GC1"})
     cmc(v, wd, "cleanup-pinned-order", pin, expect="RetainedComplete")
@@ -33,6 +36,10 @@ def run(tier):
     sch = cgen(wd, "gen-cleanup-3c-faults", g3, simulate=2500 if thorough else 250, depth=141)
     v.distinct += len(sch)
     cconform(v, wd, "cleanup-3c-faults-sim", g3, sch)
+    gp = cconsts(Ops=ops, MaxOps=3, MaxVer=9, MaxLen=150, Draws={0, 255}, WithAges=True, PageSize=1)
+    sch = cgen(wd, "gen-cleanup-paged", gp, simulate=2000 if thorough else 150, depth=151)
+    v.distinct += len(sch)
+    cconform(v, wd, "cleanup-paged-sim", gp, sch, page_size=1)
     # the schedules on which the pinned order loses history, replayed on the current code: it
     # must follow the repaired specification and keep every invariant
     wit = cwitness(wd, "witness-pinned-order", pin, limit=40 if thorough else 10)
@@ -47,5 +54,6 @@ def run(tier):
                   "FreshCanReconstruct, SnapshotRetained, AckedOnChain; interleavings (incl. the "
                   "ones on which the pinned cleanup order loses history) are replayed on real "
                   "CloudServer instances; distinct = distinct interleavings",
-             assumptions=["a listing is one atomic request; object ages are set by the harness "
+             assumptions=["listings are atomic requests except in the *paged* families (one name "
+                          "per page request); object ages are set by the harness "
                           "(creation time 1 = older than the retention age)"])
